@@ -130,6 +130,39 @@ func refSelect(tkid, alg string, ks []pkey) selExp {
 }
 
 // ---------------------------------------------------------------------------
+// reference reading of a configured allowed-algorithm list
+
+// allowedPolicy is what the statement makes of a verifier's configured list.
+//
+//	nil                 nothing configured: the documented library default applies
+//	empty but not nil   open: "nothing configured" (default applies) or "nothing allowed";
+//	                    an algorithm outside the default is refused under both readings
+//	non-empty           the token's header alg must be a member, literally; a list without any
+//	                    member that a public key can verify (only none / HS* / unknown names)
+//	                    allows nothing at all - it never turns into some other list
+type allowedPolicy struct {
+	list      []string
+	emptyOpen bool
+	unusable  bool
+}
+
+func policyOf(cfg []string) allowedPolicy {
+	if cfg == nil {
+		return allowedPolicy{list: libraryDefaultAlgs}
+	}
+	if len(cfg) == 0 {
+		return allowedPolicy{list: libraryDefaultAlgs, emptyOpen: true}
+	}
+	p := allowedPolicy{list: cfg, unusable: true}
+	for _, m := range cfg {
+		if f := algFamily(m); f != "" && f != "HMAC" {
+			p.unusable = false
+		}
+	}
+	return p
+}
+
+// ---------------------------------------------------------------------------
 // reference token judgement
 
 type keyMode int
@@ -170,7 +203,8 @@ func reject(rule string, signed []byte) verdict { return verdict{mustReject, rul
 // configuration (allowed algorithms, key set, key mode).
 //
 // memo (optional) caches results of the signature oracle per (key, alg, input, signature).
-func refJudge(text string, allowed []string, mode keyMode, ks []pkey, memo map[string]bool) verdict {
+func refJudge(text string, cfgAllowed []string, mode keyMode, ks []pkey, memo map[string]bool) verdict {
+	pol := policyOf(cfgAllowed)
 	t, lenient := stripWS(text)
 	var protB64, payB64, sigB64 string
 	var unprot map[string]any
@@ -256,7 +290,10 @@ func refJudge(text string, allowed []string, mode keyMode, ks []pkey, memo map[s
 	if err != nil {
 		return reject("malformed", signed)
 	}
-	if !slices.Contains(allowed, alg) {
+	if pol.unusable {
+		return reject("alg-list-unusable", signed) // nothing a public key could verify is allowed: nothing is believed
+	}
+	if !slices.Contains(pol.list, alg) { // literal membership: no case folding, no trimming, no prefix
 		return reject("alg-not-allowed", signed)
 	}
 	if f := algFamily(alg); f == "" || f == "HMAC" {
@@ -345,6 +382,9 @@ func refJudge(text string, allowed []string, mode keyMode, ks []pkey, memo map[s
 	}
 	if smuggled {
 		return reject("smuggled-payload", signed)
+	}
+	if pol.emptyOpen {
+		return verdict{either, "empty-list-open", signed}
 	}
 	if lenient {
 		return verdict{either, "lenient-form", signed}
